@@ -1,8 +1,8 @@
 (* MulProofs3.v — C02, part 3: scalar_mul, the product dispatch (umul_with / imul_with /
    mul3_with) over a correct recursive mac3, and the BigInt helper operations of Toom-3
-   (division by 3, halving, doubling). *)
+   (division by 3 via DivProofs.div_rem_digit_spec, halving, doubling). *)
 From BigNum Require Import Base BaseLemmas X86 AddSub AddSubProofs ShiftCore ShiftCoreProofs
-  MulToomDeps Mul MulProofs MulProofs2.
+  Div DivProofs Mul MulProofs MulProofs2.
 Open Scope Z_scope.
 
 (** * scalar_mul *)
@@ -109,45 +109,6 @@ Proof.
   rewrite from_biguint_ienc by apply enc_canon.
   pose proof (val_nonneg _ (proj1 (proj1 Cx))). pose proof (val_nonneg _ (proj1 (proj1 Cy))).
   rewrite enc_val by nia. rewrite sign_z_mul. unfold ival. do 2 f_equal. ring.
-Qed.
-
-(** * Division by a digit (local stand-in for Div.div_rem_digit) *)
-Lemma div_digit_rev_spec b : 0 < b < B -> forall l rem, wf l -> 0 <= rem < b ->
-  let '(q, r) := div_digit_rev b rem l in
-  wf q /\ length q = length l /\ 0 <= r < b /\
-  val (rev q) * b + r = rem * B ^ Z.of_nat (length l) + val (rev l).
-Proof.
-  intros Hb. induction l as [|d l IH]; intros rem Wl Hrem.
-  - cbn. repeat split; auto; try lia; constructor.
-  - apply wf_cons in Wl as [Hd Wl]. cbn [div_digit_rev]. unfold digit in Hd.
-    assert (Hn : 0 <= rem * B + d < b * B) by nia.
-    assert (Hq : 0 <= (rem * B + d) / b < B).
-    { split; [apply Z.div_pos; lia|]. apply Z.div_lt_upper_bound; lia. }
-    assert (Hr : 0 <= (rem * B + d) mod b < b) by (apply Z.mod_pos_bound; lia).
-    specialize (IH ((rem * B + d) mod b) Wl Hr).
-    destruct (div_digit_rev b ((rem * B + d) mod b) l) as [q r].
-    destruct IH as (Wq & Lq & Hr' & Hv).
-    split; [apply wf_cons; split; auto|]. split; [cbn [length]; congruence|]. split; [auto|].
-    cbn [rev]. rewrite !val_app, !rev_length, Lq. cbn [length]. rewrite !val_single.
-    change (Z.of_nat (S (length l))) with (Z.of_nat (S (length l))). rewrite B_pow_S.
-    pose proof (Z.div_mod (rem * B + d) b ltac:(lia)) as Hdm.
-    set (Q := B ^ Z.of_nat (length l)) in *.
-    set (qq := (rem * B + d) / b) in *. set (rr := (rem * B + d) mod b) in *.
-    clearbody Q qq rr. nia.
-Qed.
-
-Theorem div_rem_digit_spec a b : wf a -> 0 < b < B ->
-  div_rem_digit a b = Ret (enc (val a / b), val a mod b).
-Proof.
-  intros Wa Hb. unfold div_rem_digit.
-  destruct (Z.eqb_spec b 0); [lia|].
-  pose proof (div_digit_rev_spec b Hb (rev a) 0 (wf_rev a Wa) ltac:(lia)) as H.
-  destruct (div_digit_rev b 0 (rev a)) as [q r]. destruct H as (Wq & Lq & Hr & Hv).
-  rewrite rev_involutive, Z.mul_0_l, Z.add_0_l in Hv.
-  assert (Hq : val (rev q) = val a / b /\ r = val a mod b).
-  { assert (val (rev q) = val a / b) by (apply Z.div_unique with r; lia).
-    assert (r = val a mod b) by (apply Z.mod_unique with (val (rev q)); lia). lia. }
-  destruct Hq as [Hq ->]. f_equal. f_equal. rewrite <- Hq. symmetry. apply enc_strip. apply wf_rev; auto.
 Qed.
 
 (** * BigInt helpers of Toom-3 *)
